@@ -12,9 +12,15 @@
 namespace booster {
 namespace aio {
 
-struct deadline_timer::data {} ;
+struct deadline_timer::data {
+	// counts the waits armed on this timer: tells the completion of the current wait
+	// from the one of a wait that was cancelled and replaced meanwhile
+	unsigned wait_no;
+	data() : wait_no(0) {}
+};
 
 deadline_timer::deadline_timer() : 
+	d(new data()),
 	srv_(0),
 	deadline_(ptime::now()),
 	event_id_(-1)
@@ -22,6 +28,7 @@ deadline_timer::deadline_timer() :
 }
 
 deadline_timer::deadline_timer(io_service &srv) : 
+	d(new data()),
 	srv_(&srv),
 	deadline_(ptime::now()),
 	event_id_(-1)
@@ -80,9 +87,13 @@ void deadline_timer::wait()
 struct deadline_timer::waiter : public booster::callable<void(system::error_code const &e)> {
 	event_handler h;
 	deadline_timer *self;
+	unsigned wait_no;
 	void operator()(system::error_code const &e)
 	{
-		self->event_id_ = -1;
+		// the completion of a cancelled wait may run after the timer was armed again:
+		// the id of the new wait must stay, otherwise it can not be cancelled any more
+		if(self->d->wait_no == wait_no)
+			self->event_id_ = -1;
 		h(e);
 	}
 };
@@ -92,6 +103,7 @@ void deadline_timer::async_wait(event_handler const &h)
 	std::unique_ptr<waiter> wt(new waiter);
 	wt->h=h;
 	wt->self = this;
+	wt->wait_no = ++d->wait_no;
 	event_id_ = get_io_service().set_timer_event(deadline_,std::move(wt));
 }
 
